@@ -73,7 +73,7 @@ PROPS = {
     },
     "C12": {
         "lean_modules": ["HotstuffModel.Properties.C12"],
-        "engines": [{"name": "quorumwaiter"}],
+        "engines": [{"name": "quorumwaiter"}, {"name": "ownbatch"}],
         "level": "proof",
         "trusted_base": TB_COMMON + [
             "FuturesUnordered/oneshot: a handler completes when its sender is used or dropped",
